@@ -133,6 +133,54 @@ def invert_ifs(src: str, qual: str) -> Optional[str]:
     return ast.unparse(tree) + "\n"
 
 
+def return_via_temp(src: str, qual: str) -> Optional[str]:
+    """Behaviour-preserving refactor: every `return EXPR` (EXPR not a bare name / constant) of function `qual` becomes
+    `_ret = EXPR; return _ret`."""
+    import ast
+    tree = ast.parse(src)
+    parts = qual.split(".")
+    scope = tree
+    target = None
+    for i, pname in enumerate(parts):
+        found = None
+        for n in ast.walk(scope) if i == 0 else ast.iter_child_nodes(scope):
+            if isinstance(n, (ast.FunctionDef, ast.ClassDef)) and n.name == pname:
+                found = n
+                break
+        if found is None:
+            return None
+        scope = found
+        target = found
+    if not isinstance(target, ast.FunctionDef):
+        return None
+    if any(isinstance(n, (ast.Yield, ast.YieldFrom)) for n in ast.walk(target)):
+        return None
+    changed = [0]
+
+    def rewrite(stmts):
+        out = []
+        for st in stmts:
+            for field in ("body", "orelse", "finalbody"):
+                if hasattr(st, field) and isinstance(getattr(st, field), list) and not isinstance(st, (ast.FunctionDef, ast.ClassDef, ast.AsyncFunctionDef)):
+                    setattr(st, field, rewrite(getattr(st, field)))
+            if hasattr(st, "handlers"):
+                for h in st.handlers:
+                    h.body = rewrite(h.body)
+            if isinstance(st, ast.Return) and st.value is not None and not isinstance(st.value, (ast.Name, ast.Constant)):
+                out.append(ast.Assign(targets=[ast.Name(id="_ret", ctx=ast.Store())], value=st.value))
+                out.append(ast.Return(value=ast.Name(id="_ret", ctx=ast.Load())))
+                changed[0] += 1
+            else:
+                out.append(st)
+        return out
+
+    target.body = rewrite(target.body)
+    if not changed[0]:
+        return None
+    ast.fix_missing_locations(tree)
+    return ast.unparse(tree) + "\n"
+
+
 def _apply(variant: dict, root: str) -> Optional[str]:
     """Apply the edits to the copy at root; returns a reason string when the variant must be skipped."""
     if variant.get("patch"):
@@ -163,7 +211,7 @@ def _apply(variant: dict, root: str) -> Optional[str]:
             return f"file {rel} absent"
         with open(path, encoding="utf-8") as f:
             src = f.read()
-        out = rename_locals(src, qual) if kind == "rename_locals" else invert_ifs(src, qual)
+        out = {"rename_locals": rename_locals, "invert_ifs": invert_ifs, "return_via_temp": return_via_temp}[kind](src, qual)
         if out is None:
             return f"function {qual} not found in {rel}"
         compile(out, path, "exec")
